@@ -460,6 +460,12 @@ func checkC03(c *Ctx, r *Report) {
 	// the integrity hash handed to the wrapper is the negotiated algorithm's, keyed by K1 and
 	// truncated as specified (shared with C01): the AuthCode length follows from it
 	checkAlgorithmTables(c, r)
+	// "for exactly the command the caller asked for", packet after packet: command definitions
+	// are never written at run time (shared with C19, C06) ...
+	checkPackageTablesReadOnly(c, r)
+	// ... and "no initialisation vector is ever used twice": one Transport.Send is one datagram —
+	// the transport does not repeat a packet (and with it its IV) on its own (shared with C09–C11)
+	checkOneWriteOneRead(c, r)
 	checkBufferViews(c, r, "buffer-views")
 
 	// ---- (4) layouts shared with C06
